@@ -136,6 +136,92 @@ def wireLen (payer : Nat) (ixs : List Ix) (versioned : Bool) (luts : List (List 
       lookupsLen (usedTables (lutStats payer ixs luts))
   else baseLen (nSigners payer ixs) (keysOf payer ixs).length ixs
 
+/-! ### The serialized transaction itself
+
+`serialize` produces the BYTES bincode writes for the transaction solana_sdk builds from
+`(payer, instructions, lookup tables)` with default signatures and a zero blockhash:
+`Transaction::new_unsigned(Message::new(ixs, Some(payer)))` for legacy and
+`VersionedTransaction { signatures, message: V0(v0::Message::try_compile(..)) }` for v0.
+Key order is `CompiledKeys`' order: payer, then (ascending by key bytes within each class)
+writable signers, readonly signers, writable non-signers, readonly non-signers; looked-up keys
+follow the static ones (all writable ones table by table, then all readonly ones).
+A key `n` stands for the 32 bytes `be8(n) ++ 0^24` (the harness builds its pubkeys that way), the
+`i`-th lookup table has account key `900000 + i`, instruction data is `be4(id) ++ 0…`. -/
+
+def compactBytes (n : Nat) : List Nat :=
+  if n ≤ 127 then [n]
+  else if n ≤ 16383 then [n % 128 + 128, n / 128]
+  else [n % 128 + 128, n / 128 % 128 + 128, n / 16384]
+
+def keyBytes (k : Nat) : List Nat :=
+  (List.range 32).map (fun i => if i < 8 then k / 256 ^ (7 - i) % 256 else 0)
+
+def dataBytes (ix : Ix) : List Nat :=
+  (List.range ix.dataLen).map (fun i => if i < 4 then ix.id / 256 ^ (3 - i) % 256 else 0)
+
+def insertOrd (k : Nat) : List Nat → List Nat
+  | [] => [k]
+  | x :: xs => if k ≤ x then k :: x :: xs else x :: insertOrd k xs
+
+def sortKeys (l : List Nat) : List Nat := l.foldr insertOrd []
+
+def indexIn (k : Nat) : List Nat → Nat
+  | [] => 0
+  | x :: xs => if x = k then 0 else indexIn k xs + 1
+
+/-- one compiled lookup: table account key, drained writable / readonly keys and their indexes. -/
+structure Lookup where
+  table : Nat
+  wKeys : List Nat
+  rKeys : List Nat
+  wIdx : List Nat
+  rIdx : List Nat
+  deriving Repr
+
+/-- `try_drain_keys_found_in_lookup_table` for every table in order (tables carry their number). -/
+def lookupEntries (U : List Nat) (w : Nat → Bool) : (Nat → Bool) → Nat → List (List Nat) → List Lookup
+  | _, _, [] => []
+  | can, i, t :: ts =>
+    let wk := U.filter (fun k => can k && t.contains k && w k)
+    let rk := U.filter (fun k => can k && t.contains k && !w k)
+    let rest := lookupEntries U w (fun k => can k && !t.contains k) (i + 1) ts
+    if wk.length + rk.length > 0 then
+      ⟨900000 + i, wk, rk, wk.map (fun k => indexIn k t), rk.map (fun k => indexIn k t)⟩ :: rest
+    else rest
+
+def lookupBytes (l : Lookup) : List Nat :=
+  keyBytes l.table ++ compactBytes l.wIdx.length ++ l.wIdx ++ compactBytes l.rIdx.length ++ l.rIdx
+
+/-- static account keys in `CompiledKeys` order, split as (writable signers incl. payer, readonly
+signers, writable non-signers, readonly non-signers). -/
+def staticClasses (payer : Nat) (ixs : List Ix) (tables : List (List Nat)) :
+    List Nat × List Nat × List Nat × List Nat :=
+  let rest := (sortKeys (keysOf payer ixs)).filter (fun k => k != payer)
+  let sg := isSigner payer ixs
+  let w := isWritable payer ixs
+  let st : Nat → Bool := fun k => !(can0 payer ixs k && !canFinal (can0 payer ixs) tables k)
+  (payer :: rest.filter (fun k => sg k && w k), rest.filter (fun k => sg k && !w k),
+   rest.filter (fun k => !sg k && w k && st k), rest.filter (fun k => !sg k && !w k && st k))
+
+def ixBytes (accountKeys : List Nat) (ix : Ix) : List Nat :=
+  [indexIn ix.prog accountKeys] ++ compactBytes ix.metas.length ++
+    ix.metas.map (fun m => indexIn m.key accountKeys) ++ compactBytes ix.dataLen ++ dataBytes ix
+
+def serialize (payer : Nat) (ixs : List Ix) (versioned : Bool) (luts : List (List Nat)) : List Nat :=
+  let tables := if versioned then luts else []
+  let (ws, rs, wn, rn) := staticClasses payer ixs tables
+  let static := ws ++ rs ++ wn ++ rn
+  let lks := lookupEntries (sortKeys (keysOf payer ixs)) (isWritable payer ixs) (can0 payer ixs) 0 tables
+  let accountKeys := static ++ (lks.map (·.wKeys)).flatten ++ (lks.map (·.rKeys)).flatten
+  let nSig := ws.length + rs.length
+  compactBytes nSig ++ List.replicate (nSig * 64) 0 ++
+    (if versioned then [128] else []) ++
+    [nSig, rs.length, rn.length] ++
+    compactBytes static.length ++ (static.map keyBytes).flatten ++
+    List.replicate 32 0 ++
+    compactBytes ixs.length ++ (ixs.map (ixBytes accountKeys)).flatten ++
+    (if versioned then compactBytes lks.length ++ (lks.map lookupBytes).flatten else [])
+
 /-! ### Groups -/
 
 structure AG where
